@@ -364,6 +364,32 @@ def check_value_domain(chk):
         raise Unrecognised('C05.V', 'no ** on script values found in evaluate_expression', mod.rel)
 
 
+def check_object_keys(chk):
+    """C05.K: objects produced for scripts have string keys only - csv.DictReader stores cells beyond the header under the key None unless restkey is given or the key is removed;
+    serialising such an object (sort_keys=True) raises a host TypeError out of execute_script"""
+    n = 0
+    for modname in ('library', 'data'):
+        mod = chk.repo.module(modname)
+        for fname, func in mod.funcs.items():
+            for node in walk_no_nested(func):
+                if isinstance(node, ast.Call) and (call_name(node) or '').endswith('DictReader'):
+                    n += 1
+                    restkey = next((k.value for k in node.keywords if k.arg == 'restkey'), None)
+                    removed = any((isinstance(x, ast.Call) and isinstance(x.func, ast.Attribute) and x.func.attr == 'pop' and x.args and isinstance(x.args[0], ast.Constant) and x.args[0].value is None)
+                                  or (isinstance(x, ast.Delete) and any(isinstance(t, ast.Subscript) and isinstance(t.slice, ast.Constant) and t.slice.value is None for t in x.targets))
+                                  or (isinstance(x, ast.Compare) and isinstance(x.ops[0], ast.IsNot) and isinstance(x.comparators[0], ast.Constant) and x.comparators[0].value is None
+                                      and isinstance(getattr(x, '_parent', None), ast.comprehension))
+                                  for x in ast.walk(func))
+                    if (restkey is not None and const_str(restkey) is not None) or removed:
+                        chk.ok('C05.K', f'{modname}.{fname}: rows of csv.DictReader cannot keep the None rest key ({"restkey given" if restkey is not None else "key None removed"})')
+                    else:
+                        chk.bad('C05.K', mod, fname, norm(node)[:80],
+                                'csv.DictReader stores the cells of a row that is longer than the header under the key None: the resulting object has a non-string key, and serialising it '
+                                '(string concatenation, stringNew, jsonStringify, grouping keys: sort_keys=True) raises a host TypeError out of execute_script', node=node)
+    if n == 0:
+        chk.note('C05.K: no csv.DictReader call found')
+
+
 def check_failure_values(chk):
     from .c15 import check_failure_values as cfv
     cfv(chk, rule='C05.L')
@@ -382,6 +408,8 @@ def run(chk):
     chk.guard('C05.W', check_wrapper, chk)
     chk.guard('C05.E', check_escape, chk)
     chk.guard('C05.V', check_value_domain, chk)
+    chk.rule('C05.K', 'objects produced by the library have string keys only (no None rest key from csv.DictReader)')
+    chk.guard('C05.K', check_object_keys, chk)
     try:
         chk.guard('C05.L', check_failure_values, chk)
     except ImportError:
